@@ -2,7 +2,10 @@ module verif/harness
 
 go 1.25.0
 
-require github.com/gotd/td v0.0.0
+require (
+	github.com/gotd/td v0.0.0
+	golang.org/x/crypto v0.54.0
+)
 
 require (
 	github.com/go-faster/errors v0.8.0 // indirect
